@@ -317,22 +317,27 @@ func extractC14(c *Ctx) error {
 	if cf == nil {
 		return fmt.Errorf("calculateFeesForEstimate not found")
 	}
+	// fees.X, err = mulCeilUint64(multiplicators.X, <arg>)
 	var formula []string
 	ast.Inspect(cf.Body, func(n ast.Node) bool {
 		as, ok := n.(*ast.AssignStmt)
-		if !ok || len(as.Lhs) != 1 || len(as.Rhs) != 1 {
+		if !ok || len(as.Lhs) < 1 || len(as.Rhs) != 1 {
 			return true
 		}
 		lhs := c.Src(as.Lhs[0])
 		if !strings.HasPrefix(lhs, "fees.") {
 			return true
 		}
-		recv, names, args := methodChain(c, as.Rhs[0])
-		arg := ""
-		if len(args) > 0 {
-			arg = args[0]
+		ce, ok := as.Rhs[0].(*ast.CallExpr)
+		if !ok {
+			formula = append(formula, lhs+" = ?"+c.Src(as.Rhs[0]))
+			return true
 		}
-		formula = append(formula, lhs+" = "+recv+"."+strings.Join(names, ".")+" @ "+arg)
+		var args []string
+		for _, a := range ce.Args {
+			args = append(args, c.Src(a))
+		}
+		formula = append(formula, lhs+" = "+c.Src(ce.Fun)+"("+strings.Join(args, ", ")+")")
 		return true
 	})
 	if len(formula) != 3 {
@@ -341,5 +346,92 @@ func extractC14(c *Ctx) error {
 	c.P("(* x/consensus/keeper/estimate.go *)")
 	c.P("Definition fee_formula : list string := %s.", CoqStrList(formula))
 	c.Info("fee_formula", formula)
+
+	// the helper: guards, product, rounding, range check — statement by statement
+	mc := FindFunc(est, "", "mulCeilUint64")
+	if mc == nil {
+		return fmt.Errorf("mulCeilUint64 not found")
+	}
+	var mcShape []string
+	for _, st := range mc.Body.List {
+		switch s := st.(type) {
+		case *ast.IfStmt:
+			if s.Else != nil || s.Init != nil {
+				return fmt.Errorf("mulCeilUint64: unexpected if shape")
+			}
+			kind := "then"
+			for _, b := range s.Body.List {
+				if rs, ok := b.(*ast.ReturnStmt); ok {
+					kind = "error"
+					if len(rs.Results) == 2 && c.Src(rs.Results[1]) == "nil" {
+						kind = "return " + c.Src(rs.Results[0])
+					}
+				} else {
+					kind = c.Src(b)
+				}
+			}
+			mcShape = append(mcShape, "if "+c.Src(s.Cond)+" => "+kind)
+		default:
+			mcShape = append(mcShape, c.Src(st))
+		}
+	}
+	c.P("Definition mul_ceil_shape : list string := %s.", CoqStrList(mcShape))
+	c.Info("mul_ceil_shape", mcShape)
+	dp, ok := ConstValue(c, []*ast.File{est}, "decPrecisionDivisor")
+	if !ok {
+		return fmt.Errorf("decPrecisionDivisor not found")
+	}
+	c.P("Definition dec_precision_divisor_expr : string := %s.", CoqStr(dp))
+
+	// ---- multiplicator validation on submission (x/treasury/keeper/msg_server.go) ----
+	tm, err := c.Parse("x/treasury/keeper/msg_server.go")
+	if err != nil {
+		return err
+	}
+	mx, ok := ConstValue(c, []*ast.File{tm}, "maxRelayerFeeMultiplicator")
+	if !ok {
+		return fmt.Errorf("maxRelayerFeeMultiplicator not found")
+	}
+	mxCall, _ := func() (*ast.CallExpr, bool) {
+		for _, d := range tm.Decls {
+			gd, ok := d.(*ast.GenDecl)
+			if !ok {
+				continue
+			}
+			for _, sp := range gd.Specs {
+				vs, ok := sp.(*ast.ValueSpec)
+				if ok && len(vs.Names) == 1 && vs.Names[0].Name == "maxRelayerFeeMultiplicator" && len(vs.Values) == 1 {
+					ce, ok := vs.Values[0].(*ast.CallExpr)
+					return ce, ok
+				}
+			}
+		}
+		return nil, false
+	}()
+	if mxCall == nil || len(mxCall.Args) != 1 || !strings.HasSuffix(c.Src(mxCall.Fun), "LegacyNewDec") {
+		return fmt.Errorf("maxRelayerFeeMultiplicator: expected math.LegacyNewDec(<int>), got %s", mx)
+	}
+	lit, ok := mxCall.Args[0].(*ast.BasicLit)
+	if !ok || lit.Kind != token.INT {
+		return fmt.Errorf("maxRelayerFeeMultiplicator: integer literal expected")
+	}
+	c.P("(* x/treasury/keeper/msg_server.go *)")
+	c.P("Definition max_relayer_fee_multiplicator : Z := %s.", strings.ReplaceAll(lit.Value, "_", ""))
+	vm := FindFunc(tm, "", "validateMultiplicator")
+	if vm == nil {
+		return fmt.Errorf("validateMultiplicator not found")
+	}
+	var vmConds []string
+	for _, st := range vm.Body.List {
+		if is, ok := st.(*ast.IfStmt); ok {
+			vmConds = append(vmConds, c.Src(is.Cond))
+		}
+	}
+	c.P("Definition validate_multiplicator_rejects : list string := %s.", CoqStrList(vmConds))
+	up := FindFunc(tm, "msgServer", "UpsertRelayerFee")
+	if up == nil || len(Calls(up.Body, "validateMultiplicator")) != 1 {
+		return fmt.Errorf("UpsertRelayerFee: exactly one validateMultiplicator call expected")
+	}
+	c.Info("max_multiplicator", lit.Value)
 	return nil
 }
